@@ -1,6 +1,7 @@
 INIT BInit
 NEXT BNext
 CONSTANTS MaxDepth = 0
+ ExtraLeaves <- NoExtra
  LeafMode = "plain"
  WithPairs = FALSE
 INVARIANT Emit
